@@ -11,6 +11,7 @@ import (
 	spb "github.com/openconfig/gribi/v1/proto/service"
 	"github.com/openconfig/gribigo/server"
 
+	"verifh/internal/clock"
 	"verifh/internal/drive"
 	"verifh/internal/ev"
 	"verifh/internal/gen"
@@ -135,6 +136,7 @@ func RunHistory(h hgen.History, o Opts) (*ev.Verdict, *l1.Trace) {
 	if o.NoRefCheck {
 		o.SrvOpts = append(append([]server.ServerOpt(nil), o.SrvOpts...), server.DisableRIBCheckFn())
 	}
+	clock.Install()
 	vrfs := hgen.NIs[1:]
 	if o.VRFs != nil {
 		vrfs = o.VRFs
@@ -219,6 +221,7 @@ func RunHistory(h hgen.History, o Opts) (*ev.Verdict, *l1.Trace) {
 		st := h.Steps[i]
 		if st.Op == nil {
 			i++
+			clock.Apply(st.Clock)
 			tr.Flushes++
 			var nis []string
 			if o.OnFlush != nil {
@@ -272,6 +275,11 @@ func RunHistory(h hgen.History, o Opts) (*ev.Verdict, *l1.Trace) {
 		var ops []*gen.Op
 		for i < len(h.Steps) && h.Steps[i].Op != nil && len(ops) < size {
 			ops = append(ops, h.Steps[i].Op)
+			// (the clock events of all operations of a request happen before the request)
+			if h.Steps[i].Clock != 0 {
+				clock.Apply(h.Steps[i].Clock)
+				v.Class("clock-stepped-or-frozen")
+			}
 			i++
 		}
 		req := &spb.ModifyRequest{}
